@@ -35,6 +35,11 @@ def run(tier, seed):
     rng = random.Random(seed)
     unit = c16_cache.run_cache_unit(tier, seed, rd, fxv)
     viol = list(unit["violations"])
+    # cache calls of several threads on keys that share one bucket, interleaved at the cache's lock acquisitions
+    # (traced lock types, hook 140086a) by the DFS controller; the order of the critical sections is a sequential
+    # call sequence that TraceCache.tla judges (MemExact, HitOnlyExactGen, RemoveThenMiss, TouchSetsRef, RefOnlyByTouch)
+    conc = c16_cache.run_cache_conc(tier, seed, rd, fxv)
+    viol += conc["violations"]
     n, steps = (8, 450) if tier == "quick" else (80, 900)
     jobs = []
     pairs = []
@@ -60,9 +65,12 @@ def run(tier, seed):
         " unit level: recorded ClockCache executions validated by TraceCache.tla",
         q.sample_events(st["sample_trace"]) + unit.get("samples", [])[:2],
         extra={"pairs_compared": compared, "cache_unit_traces": unit["traces"],
-               "cache_unit_events": unit["events"]})
-    cov["traces_validated_against_impl"] += unit["traces"]
-    cov["evaluations"] += unit["events"]
+               "cache_unit_events": unit["events"],
+               "cache_concurrent": {k: conc[k] for k in ("programs", "schedules", "traces", "events")}})
+    cov["traces_validated_against_impl"] += unit["traces"] + conc["traces"]
+    cov["evaluations"] += unit["events"] + conc["events"]
+    cov["states"] += conc["states"]
+    cov["transitions"] += conc["transitions"]
     return {"level": "model_checking", "coverage": cov, "violations": viol,
             "assumptions": ["cache entry identity read through verif_entries (hook)"]}
 
